@@ -32,6 +32,8 @@ class Gen:
                 return self.words()
             return '<a href="%s">%s</a>' % (r.choice(HREFS), self.inline(depth + 1, True) if r.random() < 0.8 else '')
         if k < 0.90:
+            if r.random() < 0.2:       # images without any source attribute the differ looks at (placeholders, lazy loading)
+                return r.choice(['<img alt="%s">' % r.choice(WORDS), '<img data-original="%s" alt="">' % r.choice(IMGS), '<img data-lazy-src="%s">' % r.choice(IMGS)])
             return '<img src="%s" alt="%s">' % (r.choice(IMGS), r.choice(WORDS))
         if k < 0.95:
             return '<br>' + (' ' if r.random() < 0.5 else '') + self.words(1, 2)
@@ -39,7 +41,10 @@ class Gen:
             return r.choice(['<script>var a = "<b>x</b>";</script>', '<style>p > a { color: red }</style>',
                              '<svg width="4"><circle r="2"></circle></svg>', '<select><option>one</option><option>two</option></select>',
                              '<input type="text" value="v">', '<textarea>t &lt; u</textarea>', '<button>go</button>',
-                             '<iframe src="/frame"></iframe>', '<iframe></iframe>'])
+                             '<iframe src="/frame"></iframe>', '<iframe></iframe>',
+                             '<video controls><source src="m.mp4" type="video/mp4"><p>no video <b>here</b></p></video>',
+                             '<audio src="a.ogg"><div>no audio</div></audio>', '<video src="v.webm">plain fallback</video>',
+                             '<object data="o.swf"><ul><li>fallback item</li></ul></object>'])
         return '<ins>%s</ins>' % self.words(1, 2) if r.random() < 0.5 else '<del>%s</del>' % self.words(1, 2)
 
     def inlines(self):
